@@ -50,10 +50,9 @@ def mF20 : MatcherI := MatcherI.ofFindAt fun _ p => if p ≤ 7 then some ⟨7, 7
 def inpF20 : Bytes := [120, 97, 10, 120, 97, 32, 10]
 def cfgB2 : Config := { multiLine := true, beforeContext := 2 }
 
-/-- **Context without a match** (finding F20): an empty match behind the last terminator is dropped, but its
-before-context lines are delivered first (`rg -U -B2 '^$'` prints two context lines and exits with 1). -/
-theorem C13_full_fails_context :
-    (multiLine cfgB2 mF20 allCont inpF20).events ≠ mlSpec cfgB2 mF20 inpF20 := by decide
+/-- The former finding F20/F27 (before-context delivered for the dropped empty match behind the last
+terminator; repaired in /repo 563f90b, mirrored in the model): on the witness the model now equals the spec. -/
+example : (multiLine cfgB2 mF20 allCont inpF20).events = mlSpec cfgB2 mF20 inpF20 := by decide
 
 /-! ### Non-vacuity of `C13_nocontext`: `a\n` on `c\na\na\nc\n` — two touching matches, one block of two lines -/
 
